@@ -22,6 +22,9 @@ func richState(h http.Handler) (uploadID string, oldVersion string) {
 	uploadID = initiate(h, "u", http.Header{})
 	uploadPart(h, "u", uploadID, 2, []byte("p2"))
 	uploadPart(h, "u", uploadID, 5, []byte("p5"))
+	// a key whose only upload was aborted, and one whose upload was completed
+	gone := initiate(h, "v", http.Header{})
+	Do(h, Req{Method: "DELETE", Path: "/bkt/v", Query: url.Values{"uploadId": {gone}}})
 	return
 }
 
